@@ -200,6 +200,13 @@ func runC12(t *testing.T, p *core.Plan) *core.Result {
 		// the cause
 		switch cause {
 		case cDisconnect:
+			if variant >= 2 {
+				// a PINGREQ right before it leaves a PINGRESP in the broker's write
+				// buffer, and the peer's socket is gone as soon as the DISCONNECT has
+				// been delivered: the flush inside the broker's Close fails
+				s.Send(packet.NewPingreq())
+				s.CutAfterN = len(s.Sent) + 1
+			}
 			s.Send(packet.NewDisconnect())
 		case cCloseFIN:
 			s.CloseClean()
